@@ -1229,21 +1229,39 @@ func (g *plGen) enumGrowthScene() {
 		e2 := g.fresh()
 		g.emit(sprintf("pl enum.new %d", e2))
 		g.enums = append(g.enums, e2)
+		// one of the referencing signals moves away (the first or the last one found: which
+		// reference a size change visited last is map order)
+		var refs []int
 		for _, sID := range g.sigs {
 			if es, ok := g.ex.sigs[sID].(*acmelib.EnumSignal); ok && es.Enum() == g.ex.enums[e] && es.ParentMessage() != nil {
-				g.emit(sprintf("pl sig.setenum %d %d", sID, e2))
-				break
+				refs = append(refs, sID)
+			}
+		}
+		if len(refs) > 1 {
+			g.emit(sprintf("pl sig.setenum %d %d", refs[pick(r, 0, len(refs)-1)], e2))
+		}
+		// the name and the index of a value that IS in the enum now (execution feedback)
+		usedName, usedIdx := "ga", 1
+		var anyVal int
+		if en := g.ex.enums[e]; en != nil && len(en.Values()) > 0 {
+			vs := en.Values()
+			usedName, usedIdx = vs[0].Name(), vs[len(vs)-1].Index()
+			for id, v := range g.ex.vals {
+				if v == vs[0] {
+					anyVal = id
+				}
 			}
 		}
 		v4, v5 := g.fresh(), g.fresh()
-		g.emit(sprintf("pl val.new %d ga %d", v4, 60)) // the name of v1
+		g.emit(sprintf("pl val.new %d %s %d", v4, usedName, 60+r.Intn(3))) // a name in use
 		g.emit(sprintf("pl enum.add %d %d", e, v4))
-		g.emit(sprintf("pl val.new %d gz %d", v5, pick(r, 0, 1, 3))) // (often) the index of v1
+		g.emit(sprintf("pl val.new %d gz%d %d", v5, v5, usedIdx)) // an index in use
 		g.emit(sprintf("pl enum.add %d %d", e, v5))
 		g.vals = append(g.vals, v4, v5)
-		g.emit(sprintf("pl enum.rm %d %d", e, g.fresh()))
-		g.emit(sprintf("pl val.name %d gc", v1))
-		g.emit(sprintf("pl val.name %d ga", v2))
+		g.emit(sprintf("pl enum.rm %d %d", e, v4)) // a value that is not in the enum
+		if anyVal != 0 {
+			g.emit(sprintf("pl val.name %d %s", v2, usedName)) // (when v2 is still a member) a name in use
+		}
 		dumps()
 	}
 }
